@@ -203,6 +203,49 @@ void harness(void) {
     }
   }
 #endif
+#ifdef ROUNDTRIP
+  {
+    /* C07: write the parsed object, compare the bytes with the canonical serialisation, read it back */
+    int od = vfs_add("/o", -1, VK_DIR); int of = vfs_add("/o/w", od, VK_ABSENT);
+    NATIVE_ONLY(vfs_commit();)
+    econf_err w = econf_writeFile(ef, VP("/o"), "w");
+    CHECK(w == ECONF_SUCCESS, "writing the object succeeds");
+    static char out[CLEN + 8];
+    long n = vfs_read(of, out, CLEN + 4);
+    CHECK(n == CLEN, "written file has the length of the canonical serialisation");
+    for (int p = 0; p < CLEN; p++) { char want = CANON[p] < 0 ? (char)(-CANON[p]) : FILEB[CANON[p]]; CHECK(out[p] == want, "written bytes are the canonical serialisation of the object"); }
+    vfs_set_lines(of, CANON_ENDS, CNLINES);
+    econf_file *back = NULL;
+    econf_err r = econf_readFile(&back, VP("/o/w"), DELIM, COMMENT);
+    CHECK(r == ECONF_SUCCESS && back != NULL, "the written file is read back successfully");
+    if (r == ECONF_SUCCESS && back != NULL) {
+      CHECK(back->length == NEXP, "read back: same number of keys");
+      for (int i = 0; i < NEXP; i++) {
+        if ((size_t)i >= back->length) break;
+        const struct file_entry *fe = &back->file_entry[i];
+        if (EXP[i].sec < 0) CHECK(strcmp(fe->group, KEY_FILE_NULL_VALUE) == 0, "read back: group-less key stays group-less");
+        else CHECK(span_is(fe->group, SEC[EXP[i].sec].a, SEC[EXP[i].sec].l), "read back: key in the same section");
+        CHECK(span_is(fe->key, EXP[i].key_a, EXP[i].key_l), "read back: same key");
+        if (EXP[i].quoted && EXP[i].nv > 1) CHECK(pieces_are(fe->value, EXP[i].va, EXP[i].vl, EXP[i].nv), "quoted-value-with-continuation: read back: same value");
+        else CHECK(pieces_are(fe->value, EXP[i].va, EXP[i].vl, EXP[i].nv), "read back: same value");
+        if (EXP[i].nv <= 1) {   /* comments of single-line entries are preserved */
+          if (EXP[i].ncb == 0) CHECK(fe->comment_before_key == NULL, "read back: no comment before"); else CHECK(pieces_are(fe->comment_before_key, EXP[i].cba, EXP[i].cbl, EXP[i].ncb), "read back: same comment lines before the key");
+          if (EXP[i].nca == 0) CHECK(fe->comment_after_value == NULL, "read back: no trailing comment"); else CHECK(pieces_are(fe->comment_after_value, EXP[i].caa, EXP[i].cal, EXP[i].nca), "read back: same trailing comment");
+        }
+      }
+      char **groups = NULL; size_t gc = 0;
+      econf_err g = econf_getGroups(back, &gc, &groups);
+      if (NKSEC == 0) CHECK(g == ECONF_NOGROUP || (g == ECONF_SUCCESS && gc == 0), "read back: no sections");
+      else {
+        CHECK(g == ECONF_SUCCESS && gc == NKSEC, "read back: the key-bearing sections");
+        if (g == ECONF_SUCCESS) for (int i = 0; i < NKSEC; i++) { if ((size_t)i >= gc) break; CHECK(span_is(groups[i], SEC[KSEC[i]].a, SEC[KSEC[i]].l), "read back: sections in the same order"); }
+      }
+      if (g == ECONF_SUCCESS && groups) econf_freeArray(groups);
+      econf_freeFile(back);
+      REACH("round trip compared");
+    }
+  }
+#endif
   econf_freeFile(ef);
   REACH("parsed and compared");
 #endif
